@@ -129,6 +129,7 @@ static bool finish(World& w) {
 
 static bool sameSite(const std::string& want, const std::string& got) {
   if (want == "auto.dereg_wait") return got == "spin_wait";
+  if (want == "ev_xchg") return got == "scope.ev_xchg";      // entry of the inner v1 event's set() (site of the scope engine)
   return got == "event." + want;
 }
 
@@ -145,7 +146,7 @@ static void runAny(const Scenario& sc, long x, long k, Stats& st, const std::fun
   auto w = std::make_unique<World>(&sc);
   vrt::RunResult rr;
   {
-    vrt::Ctl c; c.accept = {"event.op", "event.auto.", "event.v1.", "event.h.", "spin_wait"};
+    vrt::Ctl c; c.accept = {"event.op", "event.auto.", "event.v1.", "event.h.", "scope.ev_xchg", "spin_wait"};
     for (int t = 1; t <= 3; ++t) c.spawn(t, [&, t] { runProg(*w, w->scn->prog[t]); });
     c.start_all();
     rr = drive(c);
